@@ -1506,6 +1506,7 @@ class Canon:
         b = [copy.deepcopy(s) for s in real_body(fn)]
         b = strip_annotations(b)
         b = norm.rename_param_rebinds(b)
+        b = norm.multimap_idioms(b)
         b = norm.merge_display_building(b)
         b = self._inline_unknown_constants(b, module, fn)
         b = norm.merge_display_building(norm.unroll_literal_loops(b))
